@@ -388,6 +388,29 @@ def analyse(proj, classes):
                     r = _root(n.args[0])
                     if isinstance(r, ast.Name) and f.params and r.id != f.params[0]:
                         tested_foreign.add(n.args[1].value)
+        # descriptors: `X = D(...)` in the class body, D defining __set__.  ONE descriptor object serves every instance of the
+        # class and its subclasses; a __set__ that keeps the value on ITSELF (self.value = value) instead of on the instance it
+        # is given (obj.__dict__ / setattr(obj, ...)) makes X state of the class: each object reads what was assigned last to any.
+        for name, expr in ci.attrs.items():
+            if not (isinstance(expr, ast.Call) and isinstance(expr.func, (ast.Name, ast.Attribute))):
+                continue
+            dcl = proj.resolve_class_expr(expr.func, ci.module)
+            if dcl is None or "__set__" not in dcl.methods:
+                continue
+            ds = dcl.methods["__set__"]
+            if len(ds.params) < 3:
+                continue
+            stats["memo_stores"] += 1
+            dsn, dval = ds.params[0], ds.params[2]
+            kept = [(t, s) for t, v, s in _stores_in(ds.node.body) if isinstance(t, ast.Attribute) and isinstance(t.value, ast.Name) and t.value.id == dsn and dval in _names_in(v)]
+            host = ci.methods.get("__init__") or next(iter(ci.methods.values()), None)
+            if kept and host is not None:
+                t, s = kept[0]
+                findings.append(Finding(host, getattr(expr, "lineno", host.node.lineno), name, "class-level attribute",
+                                        "`%s` is a descriptor (%s) whose __set__ keeps the assigned value on the descriptor itself (`%s`, %s:%d): one descriptor object serves the whole class, so every instance -- of this class and of its subclasses -- reads the value assigned LAST to any of them (two models with different parameters alive at once share one)"
+                                        % (name, dcl.qualname, unparse(s)[:50], ds.module.relpath, s.lineno)))
+            else:
+                stats["covered"].append("%s.%s (descriptor storing on the instance)" % (ci.qualname, name))
         for f in ci.methods.values():
             stats["methods"] += 1
             ctx = MethodCtx(proj, f, mut)
